@@ -234,6 +234,10 @@ impl SemaphoreState {
                     wait_node.task = Some(cx.waker().clone());
                     wait_node.state = PollState::Waiting;
                     self.waiters.add_front(wait_node);
+                    // This waiter had been removed from the queue when it was
+                    // notified. Older waiters behind it in the queue might
+                    // fit into the permits that are still available.
+                    self.wakeup_waiters();
                     Poll::Pending
                 }
             }
